@@ -183,3 +183,38 @@ for _pid in PLAN:
             continue
         _t["wall"] = "600s" if _first else "240s"
         _first = False
+
+# what every evidence file says about the shape of the claim and about what lies outside it
+_COMMON_OUT = [
+    "shapes (numbers of documents, fields, terms, locations, events, operations) beyond those the listed runs enumerate; a run whose evidence says exhaustive=false also leaves part of its own bound unvisited",
+    "the byte formats and algorithms of roaring, vellum, snappy (executed natively on concrete data) and the checksum function itself (an uninterpreted fold)",
+    "pre-v16 file layouts (legacy loaders), except the one hand-written version-15 file of C20's failing Open",
+]
+_OUT = {
+    "C01": ["batches of more than three symbolic documents (the 600-1100-document runs are concrete data with symbolic choices)", "analysers and bleve's own field types (stub documents deliver token frequencies directly)"],
+    "C02": ["stored values between 4 and 65 535 bytes other than the listed lengths", "more than three inputs in the merged-segment runs"],
+    "C03": ["more than three documents per segment; visiting sequences longer than four"],
+    "C04": ["more than two symbolic documents; 130 and more fields (127-129 are run)", "re-persisting an opened segment (not part of the property)"],
+    "C05": ["more than three inputs, more than two documents per input", "KNOWN FINDING C05-nothing-survives: a merge without survivors returns no renumbering lists and an unqueryable result (what holds there is still checked)"],
+    "C06": ["more than two symbolic documents per input; third-generation merges", "symbolic data above 1024 postings (the 1100-document runs are concrete with symbolic deleted block and probes)"],
+    "C07": ["more than five documents, sequences longer than three calls, random larger instances"],
+    "C08": ["alphabets beyond five terms; edit distances above 1; arbitrary regular expressions (three fixed automata plus match-all, nil and never-matching)"],
+    "C09": ["layouts of the vector section's index blob", "releases other than the pinned commit as writers of corpus files"],
+    "C10": ["interleavings of concurrent builds (reduction R1: a build stores into no shared state; confirmed by a native stress run, not enumerated)", "more than four consecutive builds"],
+    "C11": ["interleavings of reader goroutines (reduction R1: ownership, effects, lockset, sentinels per call; native stress under the race detector as confirmation only)", "state inside natively executed libraries (their objects are opaque to the monitors unless a harness stores them into shared state)"],
+    "C12": ["more than three synonym documents, alphabets beyond two terms x two synonyms x two thesauri"],
+    "C13": ["more than two inputs; more than two synonym documents per input; third-generation merges"],
+    "C14": ["the real go-faiss engine (an exact pure-Go stand-in is used: approximate indexes, quantisation and the C library are not exercised)", "more than two symbolic documents; dimensions other than 2"],
+    "C15": ["the real go-faiss engine (stand-in)", "more than two inputs; more than two documents per input"],
+    "C16": ["the real go-faiss engine (stand-in); wall-clock behaviour of the expiry monitor (expiry passes are explicit events)", "interleavings of concurrent searchers (reduction R1: lockset on the cache map and entry; native stress as confirmation)", "KNOWN FINDING C16-cache-remembers-exclusions"],
+    "C17": ["Sync and Close faults cannot be replayed natively (write faults and WriteTo faults can): a defect visible only through them would be reported as UNCONFIRMED", "segments other than the four fault segments"],
+    "C18": ["inputs other than the listed five kinds; cancellation is a decision at every poll, not at arbitrary instructions between polls"],
+    "C19": ["the real go-faiss engine (stand-in with fault injection per operation and call number)"],
+    "C20": ["interleavings of concurrent holders (reduction R1: lockset on counter, mapping and descriptor; native stress as confirmation)", "sequences longer than eight (ten in the thorough tier) operations"],
+}
+_EXPL = ("states / transitions are paths of the symbolic interpreter through the real code (one path = one choice of shape bits and one resolution of every "
+         "symbolic branch, decided for all values of the remaining symbolic numbers by the solver); traces_validated_against_impl counts passing paths whose "
+         "solver model was re-executed natively with the same outcome")
+for _pid in PLAN:
+    PLAN[_pid]["outside"] = _OUT.get(_pid, []) + _COMMON_OUT
+    PLAN[_pid]["explanation"] = _EXPL
